@@ -118,10 +118,6 @@ def lpAll (data : Bytes) : Option (List Bytes) :=
   | none => none
   | some (n, rem) => (lpTake n rem).map (·.1)
 
-def pairUp : List Bytes → List (Bytes × Bytes)
-  | a :: b :: rest => (a, b) :: pairUp rest
-  | _ => []
-
 /-- hash / zset listpack: an odd element count is an error -/
 def lpPairs (data : Bytes) : Option (List (Bytes × Bytes)) :=
   match lpNew data with
